@@ -176,4 +176,37 @@ theorem Schwarzschild_kretschmann (t x y z : ℝ) (hD : Schwarzschild_domain t x
   unfold Schwarzschild_isotropic.Kretschmann
   field_simp
   ring1
+
+/-- `null_ray_exp_out` is the divergence `D_i s^i = (1/√γ) ∂_i(√γ s^i)` of the unit outward normal
+`s^i = x^i/(r √γ_xx)` of the coordinate spheres in the module's conformally flat spatial metric
+(`√γ = γ_xx^{3/2}`, so `√γ s^i = γ_xx x^i / r`); on the time-symmetric slice (`Kdown3 = 0`) this is the
+expansion of the outgoing null rays. -/
+theorem Schwarzschild_null_expansion (t x y z : ℝ) (hq : x ^ 2 + y ^ 2 + z ^ 2 ≠ 0) :
+    ∃ vx vy vz : ℝ,
+      HasDerivAt (fun s => Schwarzschild_isotropic.gammadown3_num_00 t s y z * s / Real.sqrt (s ^ 2 + y ^ 2 + z ^ 2)) vx x ∧
+      HasDerivAt (fun s => Schwarzschild_isotropic.gammadown3_num_00 t x s z * s / Real.sqrt (x ^ 2 + s ^ 2 + z ^ 2)) vy y ∧
+      HasDerivAt (fun s => Schwarzschild_isotropic.gammadown3_num_00 t x y s * s / Real.sqrt (x ^ 2 + y ^ 2 + s ^ 2)) vz z ∧
+      (vx + vy + vz) / Schwarzschild_isotropic.gammadown3_num_00 t x y z ^ ((3:ℝ) / 2)
+        = Schwarzschild_isotropic.null_ray_exp_out t x y z := by
+  have hM := Schwarzschild_M_pos
+  have hnn : 0 ≤ x ^ 2 + y ^ 2 + z ^ 2 := by positivity
+  have hr : 0 < Real.sqrt (x ^ 2 + y ^ 2 + z ^ 2) := Real.sqrt_pos.mpr (lt_of_le_of_ne hnn (Ne.symm hq))
+  have hrn := hr.ne'
+  have hrel := Real.sq_sqrt hnn
+  have hψ : 0 < 1 + Schwarzschild_isotropic.M / (2 * Real.sqrt (x ^ 2 + y ^ 2 + z ^ 2)) := by positivity
+  have hpow : ((1 + Schwarzschild_isotropic.M / (2 * Real.sqrt (x ^ 2 + y ^ 2 + z ^ 2))) ^ 4) ^ ((3:ℝ) / 2)
+      = (1 + Schwarzschild_isotropic.M / (2 * Real.sqrt (x ^ 2 + y ^ 2 + z ^ 2))) ^ 6 := by
+    rw [← Real.rpow_natCast, ← Real.rpow_mul hψ.le, ← Real.rpow_natCast]; norm_num
+  unfold Schwarzschild_isotropic.gammadown3_num_00 Schwarzschild_isotropic.null_ray_exp_out
+  refine ⟨((1 + Schwarzschild_isotropic.M / (2 * Real.sqrt (x ^ 2 + y ^ 2 + z ^ 2))) ^ 4 / Real.sqrt (x ^ 2 + y ^ 2 + z ^ 2) - x ^ 2 * ((1 + Schwarzschild_isotropic.M / (2 * Real.sqrt (x ^ 2 + y ^ 2 + z ^ 2))) ^ 4 / Real.sqrt (x ^ 2 + y ^ 2 + z ^ 2) ^ 3 + 2 * Schwarzschild_isotropic.M * (1 + Schwarzschild_isotropic.M / (2 * Real.sqrt (x ^ 2 + y ^ 2 + z ^ 2))) ^ 3 / Real.sqrt (x ^ 2 + y ^ 2 + z ^ 2) ^ 4)), ((1 + Schwarzschild_isotropic.M / (2 * Real.sqrt (x ^ 2 + y ^ 2 + z ^ 2))) ^ 4 / Real.sqrt (x ^ 2 + y ^ 2 + z ^ 2) - y ^ 2 * ((1 + Schwarzschild_isotropic.M / (2 * Real.sqrt (x ^ 2 + y ^ 2 + z ^ 2))) ^ 4 / Real.sqrt (x ^ 2 + y ^ 2 + z ^ 2) ^ 3 + 2 * Schwarzschild_isotropic.M * (1 + Schwarzschild_isotropic.M / (2 * Real.sqrt (x ^ 2 + y ^ 2 + z ^ 2))) ^ 3 / Real.sqrt (x ^ 2 + y ^ 2 + z ^ 2) ^ 4)), ((1 + Schwarzschild_isotropic.M / (2 * Real.sqrt (x ^ 2 + y ^ 2 + z ^ 2))) ^ 4 / Real.sqrt (x ^ 2 + y ^ 2 + z ^ 2) - z ^ 2 * ((1 + Schwarzschild_isotropic.M / (2 * Real.sqrt (x ^ 2 + y ^ 2 + z ^ 2))) ^ 4 / Real.sqrt (x ^ 2 + y ^ 2 + z ^ 2) ^ 3 + 2 * Schwarzschild_isotropic.M * (1 + Schwarzschild_isotropic.M / (2 * Real.sqrt (x ^ 2 + y ^ 2 + z ^ 2))) ^ 3 / Real.sqrt (x ^ 2 + y ^ 2 + z ^ 2) ^ 4)), ?_, ?_, ?_, ?_⟩
+  · hasderiv_auto
+  · hasderiv_auto
+  · hasderiv_auto
+  · rw [hpow]
+    generalize hrdef : Real.sqrt (x ^ 2 + y ^ 2 + z ^ 2) = r at *
+    generalize Schwarzschild_isotropic.M = M at *
+    have h2 : M + 2 * r ≠ 0 := by positivity
+    have h3 : 2 * r + M ≠ 0 := by positivity
+    field_simp
+    linear_combination (64 * r ^ 4 + 256 * r ^ 3 * M + 288 * r ^ 2 * M ^ 2 + 128 * r * M ^ 3 + 20 * M ^ 4) * hrel
 end AurelVerif.C17Ein
